@@ -12,6 +12,12 @@
 //   - correspondence (source "correspondence"): the quiescent trace is checked for inclusion in the
 //     Lean LTS by the state-set engine of `driver group`.
 //
+// Real-threads stress phase (outside any bubble, see stressBarrier): synctest schedules the bubble's
+// goroutines deterministically enough that a registration racing a stop never lands *between two
+// adjacent statements* of spawn. The stress phase runs rounds of "several goroutines loop on g.Do(f)
+// while another calls StopAndWait" on a fresh group with GOMAXPROCS >= 4 and checks the barrier clause
+// with happens-before-sound flags only (no sleeps, no timeouts in any assertion).
+//
 //go:debug randseednop=0
 package c17
 
@@ -21,6 +27,7 @@ import (
 	"fmt"
 	"math/rand"
 	"os"
+	"runtime"
 	"strings"
 	"sync"
 	"sync/atomic"
@@ -52,9 +59,32 @@ type Step struct {
 }
 
 type Case struct {
-	Steps   []Step `json:"steps"`
+	Steps   []Step `json:"steps,omitempty"`
 	Seed    int64  `json:"seed"`
 	NoModel bool   `json:"no_model,omitempty"`
+	// real-threads stress case (no steps): configuration and the round in which the barrier broke
+	Stress *StressCfg `json:"stress,omitempty"`
+	Round  int        `json:"round,omitempty"`
+}
+
+// StressCfg: one configuration of the real-threads barrier stress.
+//
+//	Doers      goroutines that loop on a registration call while the stop runs
+//	Kind       what they register: do | trig | per | pot | mix (trig/per/pot registrations also call their
+//	           trigger function / use a 1ns interval so that f would run if the goroutine were spawned)
+//	Pre        registrations made (and running) before the race starts
+//	SpinF      Gosched calls inside f (keeps f "running" for a moment, no sleeping)
+//	StopSpin   Gosched calls of the stopping goroutine before it calls StopAndWait
+//	Stoppers   goroutines that call StopAndWait concurrently (>= 1)
+//	PlainStop  an extra goroutine calling Stop concurrently
+type StressCfg struct {
+	Doers     int    `json:"doers"`
+	Kind      string `json:"kind"`
+	Pre       int    `json:"pre,omitempty"`
+	SpinF     int    `json:"spin_f,omitempty"`
+	StopSpin  int    `json:"stop_spin,omitempty"`
+	Stoppers  int    `json:"stoppers,omitempty"`
+	PlainStop bool   `json:"plain_stop,omitempty"`
 }
 
 func (c Case) String() string {
@@ -96,8 +126,9 @@ type run struct {
 	barriers int
 }
 
-func runScenario(t *testing.T, c Case) run {
-	var r run
+// runScenario fills *r as it goes, so that what the monitors recorded survives a bubble that cannot be
+// left (synctest.Test then panics in the caller, see eval).
+func runScenario(t *testing.T, c Case, r *run) {
 	synctest.Test(t, func(t *testing.T) {
 		rand.Seed(c.Seed)
 		start := time.Now()
@@ -114,8 +145,8 @@ func runScenario(t *testing.T, c Case) run {
 			}
 			mu.Unlock()
 		}
-		var seq atomic.Int64     // global order of trigger calls and run starts
-		var barrier atomic.Bool  // some StopAndWait has returned
+		var seq atomic.Int64    // global order of trigger calls and run starts
+		var barrier atomic.Bool // some StopAndWait has returned
 		var regs []*reg
 		var sawDone []*atomic.Bool
 		var stopDone []*atomic.Bool // all Stop/StopAndWait calls, in script order
@@ -309,7 +340,6 @@ func runScenario(t *testing.T, c Case) run {
 			}
 		}
 	})
-	return r
 }
 
 // ---------------------------------------------------------------------------------------------
@@ -430,6 +460,224 @@ func genScenario(r *vlib.Rand, big bool) []Step {
 }
 
 // ---------------------------------------------------------------------------------------------
+// real-threads stress of the barrier clause (outside synctest)
+
+// stressRound runs one round on a fresh group. It returns a failure (kind, params, what) or nil.
+//
+// Soundness of the two checks (every report is a true violation, nothing is timed):
+//   - `returned` is stored by a stopping goroutine *after* its StopAndWait call has returned; f loads
+//     it as its very first action. A load that sees true is ordered after that store (sync/atomic is
+//     sequentially consistent), hence after the return of StopAndWait: f *began* after the barrier.
+//   - `running` is incremented at the entry of f and decremented at its exit; the stopping goroutine
+//     loads it right after StopAndWait returned. A value > 0 means some f has begun and has not
+//     finished at an instant after the return. In a correct Group every f registered with the wait
+//     group has called wg.Done (after returning) before Wait returns, and none registers afterwards.
+//   - the standard library's own detection of the same race ("WaitGroup is reused before previous
+//     Wait has returned", "WaitGroup misuse: Add called concurrently with Wait") is recovered and
+//     reported as the same kind: wg.Add(1) ran while / after a Wait that had seen the counter at 0.
+func stressRound(cfg StressCfg) *fail {
+	// the parent context is cancelled when the round is over, so that nothing of an abandoned group (one
+	// whose lock is wedged after a recovered panic) keeps spinning
+	parent, cancelParent := context.WithCancel(context.Background())
+	defer cancelParent()
+	g := xsync.NewGroup(parent)
+	var returned atomic.Bool
+	var running, begunAfter atomic.Int64
+	var panicMsg atomic.Value
+	notePanic := func() {
+		if p := recover(); p != nil {
+			panicMsg.CompareAndSwap(nil, fmt.Sprint(p))
+		}
+	}
+	f := func(ctx context.Context) {
+		if returned.Load() {
+			begunAfter.Add(1)
+		}
+		running.Add(1)
+		for i := 0; i < cfg.SpinF; i++ {
+			runtime.Gosched()
+		}
+		running.Add(-1)
+	}
+	var register func(kind string, n int)
+	register = func(kind string, n int) {
+		switch kind {
+		case "do":
+			g.Do(f)
+		case "trig":
+			g.Trigger(f)()
+		case "per":
+			g.Periodic(time.Nanosecond, 0, f)
+		case "pot":
+			g.PeriodicOrTrigger(time.Nanosecond, 0, f)()
+		default: // mix
+			register([]string{"do", "do", "trig", "pot", "per"}[n%5], n)
+		}
+	}
+	for i := 0; i < cfg.Pre; i++ {
+		register(cfg.Kind, i)
+	}
+	var start, doersDone, stopDone sync.WaitGroup
+	var stop atomic.Bool
+	start.Add(1)
+	for d := 0; d < cfg.Doers; d++ {
+		doersDone.Add(1)
+		go func(d int) {
+			defer doersDone.Done()
+			defer notePanic()
+			start.Wait()
+			limit := 64
+			if cfg.Kind != "do" {
+				limit = 8 // every live trig/per/pot registration is a goroutine with a loop of its own
+			}
+			for n := 0; n < limit && !stop.Load(); n++ {
+				register(cfg.Kind, d+n)
+			}
+		}(d)
+	}
+	stillRunning := atomic.Int64{}
+	stoppers := cfg.Stoppers
+	if stoppers < 1 {
+		stoppers = 1
+	}
+	for k := 0; k < stoppers; k++ {
+		stopDone.Add(1)
+		go func() {
+			defer stopDone.Done()
+			defer notePanic()
+			start.Wait()
+			for i := 0; i < cfg.StopSpin; i++ {
+				runtime.Gosched()
+			}
+			g.StopAndWait()
+			// the instant of return
+			if n := running.Load(); n > 0 {
+				stillRunning.Store(n)
+			}
+			returned.Store(true)
+		}()
+	}
+	if cfg.PlainStop {
+		stopDone.Add(1)
+		go func() {
+			defer stopDone.Done()
+			defer notePanic()
+			start.Wait()
+			g.Stop()
+		}()
+	}
+	start.Done()
+	// A recovered panic inside spawn leaves the group's read lock held, which wedges every later Stop and
+	// registration: the waits below are bounded (10 s of real time) only to get out of such a round; a
+	// round that does not finish is reported as a broken correspondence unless a violation was recorded.
+	hung := !waitBounded(&stopDone, 10*time.Second)
+	// the doers keep registering for a moment after the barrier ("none ever starts again")
+	for i := 0; i < 8; i++ {
+		runtime.Gosched()
+	}
+	stop.Store(true)
+	hung = !waitBounded(&doersDone, 10*time.Second) || hung
+	// registrations made strictly after the barrier, from this goroutine
+	if !hung {
+		func() {
+			defer notePanic()
+			register(cfg.Kind, 0)
+			register("do", 0)
+		}()
+	}
+	// Let goroutines that were (wrongly) spawned after the barrier reach the entry of f. Yielding is only
+	// a courtesy to the scheduler: a late f that has not started yet is simply not seen in this round.
+	for i := 0; i < 16; i++ {
+		runtime.Gosched()
+	}
+	params := map[string]interface{}{"kind": cfg.Kind, "phase": "real-threads-stress"}
+	if n := begunAfter.Load(); n > 0 {
+		params["evidence"] = "f-began-after-return"
+		return &fail{"barrier-run-started-after-stopandwait", params,
+			fmt.Sprintf("real threads: %d function(s) registered through %s began running after StopAndWait had returned (the flag is stored after the return and read at the entry of f)", n, cfg.Kind)}
+	}
+	if m := panicMsg.Load(); m != nil && strings.Contains(m.(string), "WaitGroup") {
+		params["evidence"] = "waitgroup-panic"
+		return &fail{"barrier-run-started-after-stopandwait", params,
+			fmt.Sprintf("real threads: a registration racing StopAndWait reached wg.Add(1) after the Wait had seen the counter at zero; the standard library panicked: %s", m)}
+	}
+	if n := stillRunning.Load(); n > 0 {
+		params["evidence"] = "f-running-at-return"
+		return &fail{"barrier-function-still-running", params,
+			fmt.Sprintf("real threads: %d run(s) of a function registered through %s were in progress at the instant StopAndWait returned", n, cfg.Kind)}
+	}
+	if m := panicMsg.Load(); m != nil {
+		params["evidence"] = "panic"
+		return &fail{"barrier-stress-panic", params, fmt.Sprintf("real threads: a Group call panicked: %s", m)}
+	}
+	if hung {
+		return &fail{"stress-round-hangs", params, "real threads: StopAndWait / a registration did not return within 10 s of real time although every f returns at once"}
+	}
+	return nil
+}
+
+// waitBounded waits for wg, at most d of real time; false = gave up.
+func waitBounded(wg *sync.WaitGroup, d time.Duration) bool {
+	done := make(chan struct{})
+	go func() { wg.Wait(); close(done) }()
+	t := time.NewTimer(d)
+	defer t.Stop()
+	select {
+	case <-done:
+		return true
+	case <-t.C:
+		return false
+	}
+}
+
+func stressConfigs() []StressCfg {
+	return []StressCfg{
+		{Doers: 4, Kind: "do"},
+		{Doers: 8, Kind: "do", StopSpin: 1},
+		{Doers: 3, Kind: "do", Pre: 2, SpinF: 2},
+		{Doers: 6, Kind: "do", SpinF: 1, StopSpin: 2, Stoppers: 2},
+		{Doers: 4, Kind: "mix", Pre: 1, SpinF: 1},
+		{Doers: 4, Kind: "pot", StopSpin: 1},
+		{Doers: 5, Kind: "do", Pre: 1, PlainStop: true},
+		{Doers: 2, Kind: "trig", Pre: 2, SpinF: 3, StopSpin: 3},
+	}
+}
+
+// stressBarrier runs rounds of every configuration, round-robin, until maxRounds or the time budget
+// (which only limits the search, it never decides an outcome). The first violation of a kind is
+// reported with its configuration and round; the phase stops at the first violation.
+func stressBarrier(res *vlib.Result, maxRounds int, budget time.Duration) {
+	old := runtime.GOMAXPROCS(0)
+	if old < 4 {
+		runtime.GOMAXPROCS(4)
+		defer runtime.GOMAXPROCS(old)
+	}
+	cfgs := stressConfigs()
+	until := time.Now().Add(budget)
+	rounds := 0
+	for ; rounds < maxRounds; rounds++ {
+		if rounds%64 == 0 && time.Now().After(until) {
+			break
+		}
+		cfg := cfgs[rounds%len(cfgs)]
+		if f := stressRound(cfg); f != nil {
+			res.Count("stress-violation." + f.kind)
+			c := cfg
+			source := "monitor"
+			if f.kind == "stress-round-hangs" {
+				source = "correspondence" // not a clause of the text: the model says these calls return
+			}
+			res.Fail(vlib.Failure{Source: source, Kind: f.kind, Params: f.params, What: f.what,
+				Case: Case{Stress: &c, Round: rounds / len(cfgs)}})
+			rounds++
+			break
+		}
+	}
+	res.CountN("stress-rounds", rounds)
+	res.Case(fmt.Sprintf("stress:%d-configurations", len(cfgs)), rounds >= len(cfgs), nil)
+}
+
+// ---------------------------------------------------------------------------------------------
 // driving
 
 // watchdog: see harness-sched/c20. A scenario that does not finish within 20 s of real time means the
@@ -499,7 +747,7 @@ func (x *runner) eval(c Case) run {
 		defer x.wd.leave()
 	}
 	var r run
-	p, pv := vlib.Try(func() { r = runScenario(x.t, c) })
+	p, pv := vlib.Try(func() { runScenario(x.t, c, &r) })
 	if p {
 		r.deadlock = fmt.Sprint(pv)
 	}
@@ -510,10 +758,11 @@ func (x *runner) do(c Case, tag string) {
 	rr := x.eval(c)
 	x.res.Count("case." + tag)
 	if rr.deadlock != "" {
+		// a broken correspondence; whatever the monitors recorded before the bubble got stuck is still
+		// reported below (it used to be dropped together with the run)
 		x.res.Count("bubble-deadlock")
 		x.res.Fail(vlib.Failure{Source: "correspondence", Kind: "bubble-deadlock", Params: map[string]interface{}{},
 			What: "goroutines of the code under test stayed blocked after the scenario had stopped the group and released every f: " + rr.deadlock, Case: c})
-		return
 	}
 	x.res.CountN("runs-of-f", int(rr.runs))
 	x.res.CountN("stopandwait-returned", rr.barriers)
@@ -543,7 +792,7 @@ func (x *runner) do(c Case, tag string) {
 		}
 		x.res.Fail(vlib.Failure{Source: "monitor", Kind: f2.kind, Params: f2.params, What: f2.what, Case: small})
 	}
-	if !c.NoModel && x.model != nil {
+	if !c.NoModel && x.model != nil && rr.deadlock == "" {
 		x.mCases = append(x.mCases, c)
 		x.mLines = append(x.mLines, modelLines(rr.lines))
 		if len(x.mCases) >= 50 {
@@ -599,6 +848,26 @@ func TestVerif(t *testing.T) {
 		if err := vlib.ReplayCase(env.Replay, &c); err != nil {
 			t.Fatalf("cannot load replay: %v", err)
 		}
+		if c.Stress != nil {
+			// a stress case names a configuration; whether a given round hits the window depends on the
+			// real scheduler, so the replay runs that configuration for many rounds
+			old := runtime.GOMAXPROCS(0)
+			if old < 4 {
+				runtime.GOMAXPROCS(4)
+			}
+			b, _ := json.Marshal(c.Stress)
+			fmt.Printf("replay of stress configuration %s (first seen in round %d)\n", b, c.Round)
+			until := time.Now().Add(15 * time.Second)
+			n := 0
+			for ; n < 400000 && time.Now().Before(until); n++ {
+				if f := stressRound(*c.Stress); f != nil {
+					fmt.Printf("  FAILS (round %d) %s: %s\n", n, f.kind, f.what)
+					os.Exit(1)
+				}
+			}
+			fmt.Printf("  no clause violated in %d rounds\n", n)
+			return
+		}
 		x := &runner{t: t, env: env, res: vlib.NewResult("C17", "")}
 		for i := 0; i < 20; i++ {
 			rr := x.eval(c)
@@ -653,6 +922,13 @@ func TestVerif(t *testing.T) {
 					Case:   lines})
 			}
 		}
+	}
+	// real-threads stress of the barrier clause: a bounded number of rounds, ~1.5 s (quick), more in the
+	// thorough tier / escalated search
+	if env.Thorough() || env.Deep {
+		stressBarrier(res, 400000, 20*time.Second)
+	} else {
+		stressBarrier(res, 12000, 1500*time.Millisecond)
 	}
 	rnd := vlib.NewRand(env.Seed)
 	seed := func() int64 { return int64(rnd.Uint64() >> 1) }
